@@ -61,6 +61,7 @@ type RouterEnv struct {
 	R          *router.VerifRouter
 	Ups        []*FakeUpstream
 	Ports      map[string]int // listener kind -> port
+	Unix       map[string]string // listener kind -> abstract unix socket name ("@..."), kinds tcpunix gnetunix httpunix fasthttpunix
 	dir        string
 	mu         sync.Mutex
 	behaviour  map[string]Behaviour
@@ -332,8 +333,10 @@ var TlsListenerKinds = []string{"tls", "https", "quic"}
 // immediately before the router is started (kind startrace: clients that are already sending while run() executes).
 var BeforeRun func(env *RouterEnv)
 
+var unixSeq atomic.Int64
+
 func NewRouterEnv(spec string) (*RouterEnv, error) {
-	env := &RouterEnv{Spec: spec, Ports: map[string]int{}, behaviour: map[string]Behaviour{}, queries: map[string][]UpQuery{}}
+	env := &RouterEnv{Spec: spec, Ports: map[string]int{}, Unix: map[string]string{}, behaviour: map[string]Behaviour{}, queries: map[string][]UpQuery{}}
 	parts := map[string]string{}
 	for _, p := range strings.Split(spec, ";") {
 		k, v, _ := strings.Cut(p, "=")
@@ -496,11 +499,20 @@ func NewRouterEnv(spec string) (*RouterEnv, error) {
 		// "udpmr": a UDP listener on the wildcard address with udp.multi_routes (replies must leave from the address the
 		// query was sent to: IP_PKTINFO); queried at 127.0.0.2 / 127.0.0.3 with connected sockets
 		kinds = append(kinds, "udpmr")
+		// listeners on abstract UNIX sockets (listen: "@name"): the peer has no IP address (no ECS, no limiter subnet, the
+		// "no address" cache group) unless a DoH client-address header names one
+		kinds = append(kinds, "tcpunix", "gnetunix", "httpunix", "fasthttpunix")
 	}
 	for _, k := range kinds {
 		p := FreePort()
 		env.Ports[k] = p
 		sc := router.ServerConfig{Tag: k, Protocol: k, Listen: fmt.Sprintf("127.0.0.1:%d", p)}
+		if strings.HasSuffix(k, "unix") {
+			sc.Protocol = strings.TrimSuffix(k, "unix")
+			unixSeq.Add(1)
+			env.Unix[k] = fmt.Sprintf("@verif-%d-%d-%s", os.Getpid(), unixSeq.Load(), k)
+			sc.Listen = env.Unix[k]
+		}
 		if k == "udpmr" {
 			sc.Protocol = "udp"
 			sc.Listen = fmt.Sprintf("0.0.0.0:%d", p)
@@ -510,7 +522,7 @@ func NewRouterEnv(spec string) (*RouterEnv, error) {
 		if k == "tcp" || k == "gnet" || k == "tls" {
 			sc.IdleTimeout = idleSec // I=<seconds>: idle_timeout of the stream listeners (absent/0 = the default)
 		}
-		if k == "http" || k == "fasthttp" || k == "https" {
+		if k == "http" || k == "fasthttp" || k == "https" || k == "httpunix" || k == "fasthttpunix" {
 			sc.Http.ClientAddrHeader = "X-Verif-Client"
 			if parts["H"] == "1" {
 				sc.Http.Path = "/dns-query" // requests for any other path: 404
@@ -619,14 +631,16 @@ func (e *RouterEnv) Query(l string, wire []byte, client string, timeout, grace t
 		return resps, "ok"
 	case l == "quic":
 		return e.queryQuic(port, wire, srcOf(client), timeout, grace)
-	case l == "tcp" || l == "gnet" || l == "tls":
+	case l == "tcp" || l == "gnet" || l == "tls" || l == "tcpunix" || l == "gnetunix":
 		var c net.Conn
 		var err error
 		d := &net.Dialer{Timeout: time.Second}
-		if ip := srcOf(client); ip != nil {
+		if ip := srcOf(client); ip != nil && !strings.HasSuffix(l, "unix") {
 			d.LocalAddr = &net.TCPAddr{IP: ip}
 		}
-		if l == "tls" {
+		if strings.HasSuffix(l, "unix") {
+			c, err = d.Dial("unix", e.Unix[l])
+		} else if l == "tls" {
 			c, err = tls.DialWithDialer(d, "tcp", fmt.Sprintf("127.0.0.1:%d", port), &tls.Config{InsecureSkipVerify: true})
 		} else {
 			c, err = d.Dial("tcp", fmt.Sprintf("127.0.0.1:%d", port))
@@ -657,6 +671,13 @@ func (e *RouterEnv) Query(l string, wire []byte, client string, timeout, grace t
 	default: // http-get http-post fasthttp-get fasthttp-post
 		base := fmt.Sprintf("http://127.0.0.1:%d%s", port, urlPath)
 		tr := &http.Transport{DisableKeepAlives: true}
+		if name := e.Unix[strings.TrimSuffix(strings.TrimSuffix(l, "-get"), "-post")]; name != "" {
+			base = "http://unix.invalid" + urlPath
+			tr.DialContext = func(ctx context.Context, _, _ string) (net.Conn, error) {
+				var d net.Dialer
+				return d.DialContext(ctx, "unix", name)
+			}
+		}
 		if strings.HasPrefix(l, "https") {
 			base = fmt.Sprintf("https://127.0.0.1:%d%s", port, urlPath)
 			tr = &http.Transport{DisableKeepAlives: true, ForceAttemptHTTP2: true, TLSClientConfig: &tls.Config{InsecureSkipVerify: true}}
